@@ -58,7 +58,17 @@ class C17(SimpleProperty):
         # in 40% of the cases the apps are built first and the converter is extended afterwards: the handlers
         # must ask the live converter
         late = rng.randint(1, len(recs) - 1) if len(recs) > 1 and rng.random() < 0.4 else 0
-        return {"records": recs, "delim": delim, "requests": paths, "late": late}
+        case = {"records": recs, "delim": delim, "requests": paths, "late": late}
+        if rng.random() < 0.35:
+            # a record that *acquired* a name by merge: add_prefix(<a name it has>, <another URI prefix>,
+            # prefix_synonyms=[new name], merge=True); requests through the new name must expand with the record's own
+            # canonical URI prefix
+            k = rng.randrange(len(recs))
+            via = rng.choice([uncps(recs[k]["p"])] + [uncps(x) for x in recs[k]["ps"]])
+            syn, other = "msyn" + str(k), f"https://merged{k}.example/"
+            case["merge"] = {"k": k, "via": via, "syn": syn, "u": other}
+            case["requests"] = paths[:6] + [(syn, paths[0][1]), (syn, "x/y")]
+        return case
 
     def run_impl(self, case):
         from curies import Converter
@@ -78,6 +88,9 @@ class C17(SimpleProperty):
                 fa.get("/" + p + case["delim"] + i, follow_redirects=False)
         for r in recs[len(recs) - late:]:
             conv.add_record(r)
+        if case.get("merge"):
+            mg = case["merge"]
+            conv.add_prefix(mg["via"], mg["u"], prefix_synonyms=[mg["syn"]], merge=True)
         out = {"flask": [], "fastapi": [], "expand": []}
         for p, i in case["requests"]:
             path = "/" + p + case["delim"] + i
@@ -89,7 +102,12 @@ class C17(SimpleProperty):
         return out
 
     def request(self, case, impl):
-        return {"k": "resolve", "records": case["records"], "delim": cps(case["delim"]),
+        records = case["records"]
+        if case.get("merge"):
+            mg = case["merge"]
+            records = [dict(r, ps=r["ps"] + [cps(mg["syn"])], us=r["us"] + [cps(mg["u"])]) if i == mg["k"] else r
+                       for i, r in enumerate(records)]
+        return {"k": "resolve", "records": records, "delim": cps(case["delim"]),
                 "paths": [cps(p + case["delim"] + i) for p, i in case["requests"]]}
 
     def compare(self, case, impl, resp):
@@ -134,7 +152,8 @@ class C17(SimpleProperty):
     def readable(self, case, impl):
         recs = "; ".join(common.show_record(r) for r in case["records"])
         out = [f"Converter([{recs}], delimiter={case['delim']!r}); the last {case.get('late', 0)} record(s) are added with "
-               f"add_record after the apps were built"]
+               f"add_record after the apps were built" + (f"; then add_prefix({case['merge']['via']!r}, {case['merge']['u']!r}, "
+               f"prefix_synonyms=[{case['merge']['syn']!r}], merge=True)" if case.get("merge") else "")]
         for k, (p, i) in enumerate(case["requests"]):
             out.append(f"GET /{p}{case['delim']}{i} -> flask {impl['flask'][k]}, fastapi {impl['fastapi'][k]}, expand {impl['expand'][k]!r}")
         return out
@@ -143,6 +162,8 @@ class C17(SimpleProperty):
         reqs = case["requests"]
         for i in range(len(reqs)):
             yield {**case, "requests": [reqs[i]]}
+        if case.get("merge"):
+            return
         for i in range(len(case["records"])):
             if len(case["records"]) > 1:
                 yield {**case, "records": case["records"][:i] + case["records"][i + 1:]}
